@@ -167,8 +167,9 @@ Lemma leaf_core_typed (C : dcfg) (U : duniverse) :
     leaf_raw C p d = Ok v0 -> validate_native p nullable v0 = Ok tt -> has_dtype U v0 (DPrim p).
 Proof.
   intros Hsoft Hcfg Hrt p nullable d0 d v Hb Hvp Hd Er Ev. destruct Hrt as [Hrd Hrdb].
-  destruct C as [pr so iw [fa fb fc fd] rd rdb dec]. cbn in *. subst so.
+  destruct C as [pr so iw [fa fb fc fu fd] rd rdb dec]. cbn in *. subst so.
   unfold leaf_cfg_ok in Hcfg. cbn in Hcfg.
+  apply andb_true_iff in Hcfg. destruct Hcfg as [Hcfg ->].
   apply andb_true_iff in Hcfg. destruct Hcfg as [Hcfg ->]. apply andb_true_iff in Hcfg. destruct Hcfg as [-> ->].
   assert (forall q s w, rd q s = Ok w -> rd_kind q w) as Hrd' by exact Hrd.
   assert (forall q s w, rdb q s = Ok w -> rd_kind q w) as Hrdb' by exact Hrdb.
@@ -214,12 +215,14 @@ Qed.
 
 Lemma leaf_in_typed (C : dcfg) (U : duniverse) :
   d_soft C = true -> leaf_cfg_ok (d_leaf C) = true -> readers_typed C ->
-  forall p nullable d v,
+  forall w p nullable d v,
     (d_proto C <> PMsgpack \/ p <> DBytes) ->
-    leaf_in C p nullable d = Ok v -> has_dtype U v (DPrim p).
+    leaf_in C w p nullable d = Ok v -> has_dtype U v (DPrim p).
 Proof.
-  intros Hsoft Hcfg Hrt p nullable d v Hb H.
-  unfold leaf_in in H. rewrite Hsoft in H. cbn [andb] in H.
+  intros Hsoft Hcfg Hrt w p nullable d v Hb H.
+  assert (lc_unwrap_first (d_leaf C) = true) as Hu.
+  { unfold leaf_cfg_ok in Hcfg. apply andb_true_iff in Hcfg. apply Hcfg. }
+  unfold leaf_in in H. rewrite Hsoft, Hu in H. cbn [negb] in H. rewrite andb_false_r in H. cbn [andb] in H.
   destruct (validate_pre C p nullable d) eqn:Hvp; cbn [negb] in H; [|discriminate].
   destruct (guard_pre p d); cbn [negb] in H; [|discriminate].
   destruct (norm_bytes C p d) as [d'| |] eqn:En; cbn [bind] in H; try discriminate.
@@ -376,9 +379,9 @@ Section DictTyping.
     d2o C U rec t d = Ok v -> has_dtype U v t.
   Proof.
     intros Hrec Hg Hd H.
-    assert (match t with DPrim _ => Crash TypeError | DArr e => d2o_arr rec e d | DRef c => d2o_obj C U rec c d end = Ok v) as H'.
+    assert (match t with DPrim _ | DWrap _ => Crash TypeError | DArr e => d2o_arr rec e d | DRef c => d2o_obj C U rec c d end = Ok v) as H'.
     { destruct d; try exact H. exfalso. apply Hd. reflexivity. }
-    clear H. destruct t as [p|c|e]; [discriminate| |].
+    clear H. destruct t as [p|c|e|q]; [discriminate| | |discriminate].
     - eapply d2o_obj_typed; eauto.
     - eapply d2o_arr_typed; [|exact H']. intros n d' v' Hv'. eapply Hrec; [|exact Hv'].
       destruct Hg as [Hg|[Hu Ht]]; [left; exact Hg|right; split; [exact Hu|exact Ht]].
@@ -396,8 +399,12 @@ Section DictTyping.
   Proof.
     induction fuel as [|k IH]; intros t nullable d v Hg H; [discriminate|]. cbn [fdv] in H.
     assert (lc_null_object_none (d_leaf C) = true) as Hnull.
-    { unfold leaf_cfg_ok in Hcfg. apply andb_true_iff in Hcfg. apply Hcfg. }
-    destruct t as [p|c|e].
+    { pose proof Hcfg as Hc. unfold leaf_cfg_ok in Hc. apply andb_true_iff in Hc. destruct Hc as [Hc _].
+      apply andb_true_iff in Hc. apply Hc. }
+    destruct t as [p|c|e|q].
+    4: { assert (has_dtype U v (DPrim q)) as X; [|destruct v; exact X].
+         eapply leaf_in_typed; eauto.
+         destruct Hg as [Hg|[_ Hg]]; [left; exact Hg|]. right. intro E. subst q. discriminate. }
     - eapply leaf_in_typed; eauto.
       destruct Hg as [Hg|[_ Hg]]; [left; exact Hg|]. right. intro E. subst p. discriminate.
     - destruct (complex_in C U (fdv C U k) (DRef c) d) as [v0| |] eqn:Ev; try discriminate. cbn [bind] in H.
